@@ -294,3 +294,45 @@ def _derived_maps(repo):
     rows.append(("contains-map", re.sub(r"\s+", "", cm.group(1))))
     lean = "def derivedMaps : List (String × String) := [" + ", ".join(f"({lean_str(a)}, {lean_str(b)})" for a, b in rows) + "]"
     return rows, lean
+
+
+@item("C07_STR_ARMS")
+def _str_arms(repo):
+    """the string arms of `impl Ord` / `impl PartialEq` / `impl Hash for Value` and the slicing of `SmallStr::as_str`
+    (value/mod.rs), as written (blanks and a block's braces removed): `(impl, representation, expression)`"""
+    src = re.sub(r"//.*", "", read(repo, "minijinja/src/value/mod.rs"))
+    rows = []
+    def norm(e):
+        e = re.sub(r"\s+", "", e)
+        while e.startswith("{") and e.endswith("}"):
+            e = e[1:-1]
+        return e.rstrip(",")
+    def arm(body, pat, what):
+        m = re.search(pat + r"\s*=>\s*", body)
+        if not m:
+            raise KeyError(what)
+        rest = body[m.end():]
+        if rest.lstrip().startswith("{"):
+            return norm(fn_body(rest, r"\{"))
+        return norm(rest.split(",\n", 1)[0])
+    ob = fn_body(src, r"impl Ord for Value\s*\{")
+    rows.append(("Ord", "SmallStr", arm(ob, r"\(&ValueRepr::SmallStr\(ref a\),\s*&ValueRepr::SmallStr\(ref b\)\)", "Ord: no SmallStr/SmallStr arm")))
+    rows.append(("Ord", "String", arm(ob, r"\(&ValueRepr::String\(ref a,\s*_\),\s*&ValueRepr::String\(ref b,\s*_\)\)", "Ord: no String/String arm")))
+    eb = fn_body(src, r"impl PartialEq for Value\s*\{")
+    rows.append(("PartialEq", "SmallStr", arm(eb, r"\(&ValueRepr::SmallStr\(ref a\),\s*&ValueRepr::SmallStr\(ref b\)\)", "PartialEq: no SmallStr/SmallStr arm")))
+    rows.append(("PartialEq", "String", arm(eb, r"\(&ValueRepr::String\(ref a,\s*_\),\s*&ValueRepr::String\(ref b,\s*_\)\)", "PartialEq: no String/String arm")))
+    hb = fn_body(src, r"impl Hash for Value\s*\{")
+    rows.append(("Hash", "SmallStr", arm(hb, r"ValueRepr::SmallStr\(ref s\)", "Hash: no SmallStr arm")))
+    rows.append(("Hash", "String", arm(hb, r"ValueRepr::String\(ref s,\s*_\)", "Hash: no String arm")))
+    sb = fn_body(src, r"impl SmallStr\s*\{")
+    ab = fn_body(sb, r"pub fn as_str\(&self\)\s*->\s*&str\s*\{")
+    m = re.search(r"from_utf8_unchecked\(([^)]*)\)", ab)
+    if not m:
+        raise KeyError("SmallStr::as_str: unexpected body")
+    rows.append(("SmallStr::as_str", "slice", norm(m.group(1))))
+    cap = re.search(r"const SMALL_STR_CAP:\s*usize\s*=\s*(\d+);", src)
+    if not cap:
+        raise KeyError("SMALL_STR_CAP")
+    lean = ("def strArms : List (String × String × String) := [" +
+            ", ".join(f"({lean_str(a)}, {lean_str(b)}, {lean_str(c)})" for a, b, c in rows) + "]")
+    return rows + [("SMALL_STR_CAP", "", cap.group(1))], lean
